@@ -24,3 +24,16 @@ func (host *logCustomCounterHost) VerifCustomBytes(label string) uint64 {
 func (icounter *LogInputCounterSet) VerifOverflowCount() uint64 {
 	return icounter.VerifCustomCount("overflow")
 }
+
+// VerifRecordState exposes the pooled state of a record (overlay only).
+func (r *LogRecord) VerifRecordState() (hasBackbuf bool, refCount int) {
+	return r._backbuf != nil, r._refCount
+}
+
+// VerifBackbufLen returns the length of the record's backing buffer or -1.
+func (r *LogRecord) VerifBackbufLen() int {
+	if r._backbuf == nil {
+		return -1
+	}
+	return len(*r._backbuf)
+}
